@@ -21,7 +21,27 @@ func tiny(name string) string {
 // fixedPrograms are small programs aimed at one ordering hazard each. The
 // last two fail (in the generator / in the compiler) every time, to exercise
 // the outcome half of the oracle.
+func svcFile(name string, includes ...string) string {
+	s := ""
+	for _, i := range includes {
+		s += "include \"./" + i + ".thrift\"\n"
+	}
+	return s + "\nstruct S_" + name + " {\n  1: optional string a\n}\n\nservice Svc_" + name + " {\n  void call_" + name + "()\n}\n"
+}
+
 var fixedPrograms = []fixedProgram{
+	{
+		// includes fan out on two levels: the entry includes two files, and the first of them
+		// (while its sibling is still queued by a walk over the modules) includes three more;
+		// every file has a service, so the order of the walk shows in the plugin request
+		Name: "nested-include-fan-out-with-services",
+		Files: []FileText{
+			{"root.thrift", svcFile("root", "a", "z")},
+			{"a.thrift", svcFile("a", "m", "k", "q")}, {"z.thrift", svcFile("z", "y", "x")},
+			{"m.thrift", svcFile("m")}, {"k.thrift", svcFile("k")}, {"q.thrift", svcFile("q")}, {"y.thrift", svcFile("y")}, {"x.thrift", svcFile("x")},
+		},
+		Feat: Feat{Files: 8, MaxIncludes: 3},
+	},
 	{
 		// F4: the entry file has a type of its own (so the library's fmt is
 		// imported first) and includes files nothing refers to.
